@@ -393,6 +393,7 @@ func runC04(e *env) {
 	units = append(units, c04Bundles(e, 800*e.scale)...)
 	c04Run(e, units)
 	c04ExprTie(e, 3000*e.scale)
+	c04StmtTie(e, 1500*e.scale)
 	c04EscapeTie(e)
 }
 
